@@ -15,7 +15,7 @@ func H10tT() { h10t(vxBytes(3)) }
 
 // H10tmpl: templates around two symbolic bytes - hyphen/newline storm, entity prefix, 4-byte rune, NUL.
 func H10tmpl() {
-	t := []string{"a-\n-\n-", "&#x", "&am", "\xf0\x9f\x98", "\x00\x00", "a-\n \n"}[vxChoice(6)]
+	t := []string{"a-\n-\n-", "&#x", "&am", "\xf0\x9f\x98", "\x00\x00", "a-\n \n", "x", "3."}[vxChoice(8)]
 	in := append([]byte(t), vxBytes(2)...)
 	in = append(in, "-\n&;"...)
 	h10t(in)
